@@ -158,7 +158,7 @@ def _cont(cid, k, subs, name=None, default=None, policy="subset", minreq=False):
 class C08(Property):
     id = "C08"
     title = "The element tree stays a tree: parent, children, root and path agree"
-    proof_module = "Proofs.C08All"
+    proof_module = "Proofs.C08TreeExamples"
     theorems = [
         "Flatland.C08.Proofs.c08_full",
         "Flatland.C08.Proofs.inv_init",
@@ -171,21 +171,61 @@ class C08(Property):
         "Flatland.C08.Proofs.setNode_wp",
         "Flatland.C08.Proofs.setDefault_wp",
         "Flatland.C08.Proofs.fromDefaults_wp",
+        # identity uniqueness is an invariant, not a hypothesis
+        "Flatland.C08.Proofs.hstep_idinv",
+        "Flatland.C08.Proofs.hrun_idinv",
+        "Flatland.C08.Proofs.idinv_init",
+        "Flatland.C08.Proofs.seqStep_ls",
+        "Flatland.C08.Proofs.mapStep_ls",
+        "Flatland.C08.Proofs.stepAt_ls",
+        # the tree clauses along histories
+        "Flatland.C08.Proofs.c08_tree_inv",
+        "Flatland.C08.Proofs.treeok_init",
+        "Flatland.C08.Proofs.navinv_hrun",
+        "Flatland.C08.Proofs.allChildren_spec",
+        "Flatland.C08.Proofs.allChildren_hrun",
+        "Flatland.C08.Proofs.removed_unreachable",
+        "Flatland.C08.Proofs.nodeStep_removed",
+        "Flatland.C08.Proofs.detached_unreachable",
+        "Flatland.C08.Proofs.seqStep_det",
+        "Flatland.C08.Proofs.mapStep_det",
+        "Flatland.C08.Proofs.placed_is_child",
+        "Flatland.C08.Proofs.nodeStep_placed",
+        "Flatland.C08.Proofs.seqStep_placed",
+        "Flatland.C08.Proofs.mapSetItem_placed",
+        "Flatland.C08.Proofs.mapUpdateArgs_placed",
+        # the added hypotheses are needed (negation witnesses on the model)
+        "Flatland.C08.Proofs.uniqueIds_needs_keys",
+        "Flatland.C08.Proofs.uniqueIds_needs_below",
+        "Flatland.C08.Proofs.uniqueIds_needs_fresh",
     ]
-    level_text = "proof (partial)"
-    level_note = ("THEOREM: c08_full — from a well-parented tree, after any history of the model's list-protocol calls "
-                  "(plain values wrapped by any member schema, Element arguments, set, set_default, *=, clear, sort, "
-                  "slices ...) and dict-protocol calls (item assignment, update/|= incl. Element values, del, pop, clear, "
-                  "setdefault, set under every policy, set_default) on any elements of a tree of any depth, every node's "
-                  "stored parent chain is exactly its holders up to the root; inv_init — every construction route of the "
-                  "model (schema(), schema(value), from_defaults, set, set_default) yields such a tree; navinv_of_wp — "
-                  "parents/root/path of the navigation API are what the shape says, for every walk bound >= depth, under "
-                  "UniqueIds (a hypothesis, NOT proved preserved). ORACLE ONLY (no theorem): all_children lists every "
-                  "reachable element once, breadth-first; removed => unreachable; placed => child; uniqueness of "
-                  "identities; set_flat/from_flat/from_object routes; model paths answering `unsupported`. Aliasing "
-                  "(`l.append(l[0])`: an argument that is already in the tree) is outside the quantifier: the model "
-                  "hands arguments over as values, so the theorem says nothing about such histories, and the generator "
-                  "does not produce them")
+    level_text = "proof (all clauses, for the calls and histories of the model; flat / Compound routes oracle-only)"
+    level_note = ("THEOREMS, for every list-protocol and dict-protocol call of the model (plain values wrapped by any member "
+                  "schema, Element arguments, set, set_default, *=, clear, sort, slices incl. extended ones; item assignment, "
+                  "update/|= incl. Element values, del, pop, clear, setdefault, set under every policy) applied to any element "
+                  "of a tree of any depth, and for histories of such calls: c08_tree_inv — from a state that is well-parented, "
+                  "has a parentless root, unique identities below the allocation counter and unique keys (TreeOK; treeok_init: "
+                  "every construction route of the model yields one), with Element arguments that are internally "
+                  "well-parented and fresh (HistOK: not in the tree at the time of the call, not twice among the arguments, "
+                  "allocated below the counter), every reached state is TreeOK again; hstep_idinv / hrun_idinv — identity "
+                  "uniqueness is PRESERVED (it was a hypothesis before); navinv_hrun — parents / root / path of every node are "
+                  "its holders, the tree root, the way from the root, for every walk bound >= depth, along histories with no "
+                  "uniqueness hypothesis; allChildren_spec / allChildren_hrun — all_children (the deque loop with its seen "
+                  "set) is the level-order list of the proper descendants, identities pairwise distinct, the root not among "
+                  "them, membership <-> reachable through children and not the root; removed_unreachable — a child of the "
+                  "target container before a call that is not a child of it afterwards occurs nowhere in the tree afterwards "
+                  "(the oracle's clause, for every call, raising or not: pop, del, remove, slice deletion, clear, replacement "
+                  "by item/slice assignment, set rebuilding members, *= 0 are instances); detached_unreachable — the same named "
+                  "by the call: what the model reports as having left the container (popped / deleted / replaced / cleared "
+                  "members, with everything below them) occurs nowhere in the tree afterwards; placed_is_child — every Element a "
+                  "normally returning call stores (all placing sequence calls; SparseDict item assignment / update of an element "
+                  "of the declared field class, for update the one given last per key) is afterwards a direct child of the "
+                  "target with the same identity and subtree, its stored parent pointer designating the container (through a "
+                  "slot that the List lists and that points to the List). HYPOTHESES beyond the property text, each with a "
+                  "negation witness: keys unique in every mapping node and mapping class (kok, decidable, preserved: the "
+                  "model's dict assignment overwrites every child under the key — uniqueIds_needs_keys), arguments below the "
+                  "counter (uniqueIds_needs_below), no aliasing (uniqueIds_needs_fresh). ORACLE ONLY: set_flat/from_flat/"
+                  "from_object routes; Compound/JoinedString nodes; model paths answering `unsupported`")
     technique = "invariant + frame-rule proof (Lean 4) + differential testing with identity labels against the implementation"
     trusted_base = [
         "Python object identity and attribute stores modelled as nodes with unique ids and a stored parent id",
@@ -193,9 +233,11 @@ class C08(Property):
     ]
     assumptions = [
         "Element arguments are fresh or detached elements; an Element that is already in the tree handed in again "
-        "(`l.append(l[0])`) is aliasing that no tree can represent and is outside the quantifier. The Lean theorem "
-        "only asks arguments to be internally well-parented (`ArgWP`); it is silent — not false, but meaningless — on "
-        "aliasing histories, because the model copies nodes; uniqueness of ids is a hypothesis of navinv_of_wp only",
+        "(`l.append(l[0])`) is aliasing that no tree can represent and is outside the quantifier: the theorems state it "
+        "as `ArgsFresh` (identities of the placed arguments disjoint from the tree and from one another, below the "
+        "allocation counter) and `ArgWP` (internally well-parented); uniqueness of identities is then a proved invariant",
+        "keys are unique in every mapping node and every mapping class of the tree and of the arguments (`kok`; holds for "
+        "everything the model constructs from a class with distinct field names, and is preserved by every call)",
         "set_flat / from_flat / from_object construction routes are checked by the Python oracle only (no Lean model "
         "of the flat-key parser here; it belongs to C01/C02)",
         "sort keys range over {u, len(u)}",
